@@ -707,8 +707,9 @@ class ValueSets:
     """
 
     def __init__(self, prog, func, names=None, summaries=None, on_el=None, on_edge=None, init_extra=None, cap=512,
-                 extra_domains=None):
+                 extra_domains=None, call_assign=None):
         self.prog, self.f = prog, func
+        self.call_assign = call_assign
         self.summ = summaries
         self.on_el, self.on_edge = on_el, on_edge
         dom = {}
@@ -728,6 +729,8 @@ class ValueSets:
             en = prog.enums.get(func_var_type(func, n))
             if en:
                 self.zero[n] = frozenset(it["n"] for it in en["items"] if it["v"] == 0)
+            elif n in dom:
+                self.zero[n] = frozenset(x for x in dom[n] if prog.enumconst.get(x, (None, 1))[1] == 0)
         init = (tuple(dom[n] for n in self.names), init_extra)
         self.at = forward_states(func, init, self._transfer, self._refine, cap=cap, switch_refine=self._switch)
 
@@ -787,6 +790,9 @@ class ValueSets:
             for a in addr_taken_args(el["e"]):
                 if a in self.idx:
                     vals = self._set(vals, a, None)
+            if self.call_assign:
+                for pth, s in (self.call_assign(el["e"]) or {}).items():
+                    vals = self._set(vals, pth, s)
             outs_vals = [vals]
         res = []
         for v2 in outs_vals:
